@@ -62,6 +62,12 @@ type CABehaviour struct {
 	WrongKey bool
 	// DelayMS: the CA takes this long before it answers (it does not watch the context)
 	DelayMS int
+	// PlainAt: when > 0, a plain public key (no certificate: e.g. the CA's own key line) is the PlainAt-th
+	// entry (1-based) of the returned list, in front of / between / behind the certificates
+	PlainAt int
+	// ErrKind: with Err, the error is a *gensign.Error of that kind: "" = a plain error | unknown |
+	// unnamed (a kind without a name, ErrorType(200)) | zero (ErrorType(0))
+	ErrKind string
 }
 
 // FakeCA implements csr.Signer: it really certifies the requested public key.
@@ -109,6 +115,14 @@ func (ca *FakeCA) Sign(ctx context.Context, req *proto.SSHCertificateSigningRequ
 		panic("verif: the signer panics")
 	}
 	if b.Err != "" && !b.ErrWithCerts {
+		switch b.ErrKind {
+		case "unknown":
+			return nil, nil, gensign.NewErrWithMsg(gensign.Unknown, b.Err)
+		case "unnamed":
+			return nil, nil, gensign.NewErrWithMsg(gensign.ErrorType(200), b.Err)
+		case "zero":
+			return nil, nil, gensign.NewErrWithMsg(gensign.ErrorType(0), b.Err)
+		}
 		return nil, nil, errors.New(b.Err)
 	}
 	pub, _, _, _, err := ssh.ParseAuthorizedKey([]byte(req.PublicKey))
@@ -135,6 +149,10 @@ func (ca *FakeCA) Sign(ctx context.Context, req *proto.SSHCertificateSigningRequ
 			c.ValidAfter, c.ValidBefore = now+90, now+90+req.Validity
 		case "huge":
 			c.ValidBefore = 1 << 63
+		case "shortfirst": // the first certificate of the reply is short-lived (5 minutes), the others as requested
+			if j == 0 && req.Validity > 300 {
+				c.ValidBefore = now + 300
+			}
 		}
 		caKey := []string{"ed25519a", "p256a", "rsa2048a"}[j%3]
 		if err := c.SignCert(rand.Reader, SSHSigner(caKey)); err != nil {
@@ -142,6 +160,13 @@ func (ca *FakeCA) Sign(ctx context.Context, req *proto.SSHCertificateSigningRequ
 		}
 		out = append(out, c)
 		certs = append(certs, c)
+	}
+	if b.PlainAt > 0 {
+		at := b.PlainAt - 1
+		if at > len(out) {
+			at = len(out)
+		}
+		out = append(out[:at:at], append([]ssh.PublicKey{SSHPub("ed25519a")}, out[at:]...)...)
 	}
 	if b.Err != "" {
 		return out, b.Comments, errors.New(b.Err)
@@ -318,7 +343,7 @@ func (l *HandlerLog) Snapshot() []string {
 type FakeHandler struct {
 	ID     string
 	Accept bool
-	// RejectKind: "" / authn (HandlerAuthN) | disabled | invalid | unknown | untyped | panic-typed
+	// RejectKind: "" / authn (HandlerAuthN) | disabled | invalid | unknown | unnamed | zero | untyped | panic-typed
 	RejectKind string
 	Log        *HandlerLog
 	PanicIn    string // name | authenticate | generate | csrs | addcerts
@@ -327,7 +352,8 @@ type FakeHandler struct {
 	NKeys   int
 	NReqs   int
 	GenErr  bool
-	// GenErrKind: with GenErr, the kind of error Generate fails with: "" (generation) | conf | untyped
+	// GenErrKind: with GenErr, how Generate fails: "" (generation error naming the handler) | conf | untyped |
+	// nameless | nameless-wrapped (typed errors without a handler name) | nokeys | emptykeys (no error, no key)
 	GenErrKind string
 	// KeyAlgo (with Agent): the key pair algorithm of the agent keys, 0 = the package default, otherwise
 	// key.PublicKeyAlgo + 1; PrivLabel: the private key's label ("" = default)
@@ -389,6 +415,10 @@ func (h *FakeHandler) Authenticate(p *csr.ReqParam) error {
 		return gensign.NewErrorWithMsg(gensign.InvalidParams, h.Name(), "verif: invalid parameters")
 	case "unknown":
 		return gensign.NewErrorWithMsg(gensign.Unknown, h.Name(), "verif: unknown")
+	case "unnamed": // a kind no name exists for
+		return gensign.NewErrorWithMsg(gensign.ErrorType(200), h.Name(), "verif: unnamed kind")
+	case "zero":
+		return gensign.NewErrorWithMsg(gensign.ErrorType(0), h.Name(), "verif: kind zero")
 	case "untyped":
 		return errors.New("verif: rejected (untyped error)")
 	case "panic-typed":
@@ -408,6 +438,14 @@ func (h *FakeHandler) Generate(p *csr.ReqParam) ([]csr.AgentKey, error) {
 			return nil, gensign.NewErrorWithMsg(gensign.HandlerConfErr, h.Name(), "verif: not configured for the requested CA key algorithm")
 		case "untyped":
 			return nil, fmt.Errorf("verif: generation failed")
+		case "nameless": // a typed error that does not name its handler
+			return nil, gensign.NewErrWithMsg(gensign.HandlerGenCSRErr, "verif: generation failed")
+		case "nameless-wrapped":
+			return nil, gensign.NewErr(gensign.HandlerGenCSRErr, fmt.Errorf("verif: generation failed"))
+		case "nokeys":
+			return nil, nil
+		case "emptykeys":
+			return []csr.AgentKey{}, nil
 		}
 		return nil, gensign.NewErrorWithMsg(gensign.HandlerGenCSRErr, h.Name(), "verif: generation failed")
 	}
